@@ -112,11 +112,9 @@ def check(c):
     # each task consumed once
     wj = [s for s in c.stores(sl, 'waiting_on_job_prep')
           if norm(s.value) == 'False']
-    conts = [n for n in c.idx.walk(sl.node) if isinstance(n, ast.Continue)
-             and c.holds(n, '!itask.waiting_on_job_prep')]
-    c.floor('C20.submit-once', 'skip tasks not waiting on job prep',
-            len(conts), 1)
-    apps = c.find(sl, 'job_log_dirs.append(_)')
+    # (tasks not waiting on job prep are skipped: the guard on the append
+    # below, whether the skip is a `continue` or a negated test)
+    apps =c.find(sl, 'job_log_dirs.append(_)')
     c.exactly('C20.submit-once', 'job_log_dirs.append', len(apps), 1)
     for a in apps:
         c.guard('C20.submit-once', a, ['itask.waiting_on_job_prep'], sl)
